@@ -63,9 +63,9 @@ HARNESSES = [
     desc='tbb::mutex, 2 lockers + 1 initial holder: notify_one wakes one sleeper, the other is woken by the next unlock',
     bounds={'threads': 3, 'free_rounds': 1, 'forced_rounds': 2, 'unroll': 1}),
   H(name='addr_rw_2t', unit='rw2', harness='h_rw.c', defines={'NT': 2, 'ROUNDS': 2}, tiers=['thorough'],
-    scenarios=[{'OP0': 1, 'OP1': 4}, {'OP0': 0, 'OP1': 4}, {'OP0': 1, 'OP1': 5}, {'OP0': 0, 'OP1': 3}], timeout=7200,
-    desc='tbb::rw_mutex through the REAL address_waiter.cpp: roles 0 reader, 1 writer, 2 reader->upgrade, 3 writer->downgrade, 4/5 thread starts as '
-         'writer/reader and releases. Reader/writer exclusion, atomic-upgrade truthfulness, no lost wake-up (WRITER_PENDING / context-filtered notify)',
+    scenarios=[{'OP0': 1, 'OP1': 4}, {'OP0': 0, 'OP1': 4}, {'OP0': 1, 'OP1': 5}, {'OP0': 0, 'OP1': 6}], timeout=7200,
+    desc='tbb::rw_mutex through the REAL address_waiter.cpp: roles 0 reader, 1 writer, 4/5 thread starts as '
+         'writer/reader and releases, 6 starts as writer, downgrades, releases (2 reader->upgrade and 3 writer->downgrade exist in the wrapper but are too expensive). Reader/writer exclusion, atomic-upgrade truthfulness, no lost wake-up (WRITER_PENDING / context-filtered notify)',
     bounds={'threads': 2, 'free_rounds': 2, 'forced_rounds': 2, 'unroll': 1}),
   # ---------------- serializer: worker-demand aggregator
   H(name='serializer_2u', unit='ser2', harness='h_ser.c', defines={'NU': 2, 'ROUNDS': 2, 'SER_WAIT_CLOSURE': SC}, scenarios=[{}], timeout=600,
@@ -98,6 +98,13 @@ HARNESSES = [
   H(name='arena_flag', unit='arena2', harness='h_arena.c', defines={'ROUNDS': 2}, scenarios=[{'PRESET': 1}, {'PRESET': 0}], timeout=1800, tiers=['thorough'],
     desc='arena pool-state flag', bounds={'threads': 2}),
 ]
+# development aid (mutation testing of one expensive scenario): VP_C02_SCEN="OP0=0,OP1=4" keeps only the scenarios containing these pairs
+import os as _os
+if _os.environ.get('VP_C02_SCEN'):
+    _want = dict((k, int(v)) for k, v in (kv.split('=') for kv in _os.environ['VP_C02_SCEN'].split(',')))
+    for _h in HARNESSES:
+        for _key in ('scenarios', 'scenarios_quick', 'scenarios_thorough'):
+            if _key in _h: _h[_key] = [sc for sc in _h[_key] if all(sc.get(k) == v for k, v in _want.items())] or _h[_key][:1]
 MANIFEST = dict(
   level_text='Bounded model checking of the real sleeping/wake-up code: for 2-3 threads executing the real concurrent_monitor (prepare_wait / re-check / '
              'commit_wait / cancel_wait / wait vs notify_one / notify_all / notify(pred)), sleep_node, binary_semaphore futex protocol and '
